@@ -93,6 +93,7 @@ class Structure(object):
         self._peak = None
         self._peak_subtree = None
         self._tree_index = None
+        self._newick = None
 
     @property
     def smallest_index(self):
@@ -324,18 +325,20 @@ class Structure(object):
 
         return self._level
 
-    @cached_property
+    @property
     def newick(self):
         """
         Newick representation of this structure.
         """
-        if self.idx is None:
-            raise ValueError("Cannot return Newick representation if idx is not set")
-        if self.children:
-            newick_items = [child.newick for child in self.children]
-            return "(%s)%s:%.3f" % (','.join(newick_items), self.idx, self.height)
-        else:
-            return "%i:%.3f" % (self.idx, self.height)
+        if self._newick is None:
+            if self.idx is None:
+                raise ValueError("Cannot return Newick representation if idx is not set")
+            if self.children:
+                newick_items = [child.newick for child in self.children]
+                self._newick = "(%s)%s:%.3f" % (','.join(newick_items), self.idx, self.height)
+            else:
+                self._newick = "%i:%.3f" % (self.idx, self.height)
+        return self._newick
 
     @property
     def descendants(self):
